@@ -190,6 +190,8 @@ impl<T> HalfLock<T> {
         // By switching the generation to the other slot, we make sure the currently active starts
         // draining while the other will start filling up.
         self.generation.fetch_add(1, Ordering::SeqCst); // Overflow is fine.
+        #[cfg(sighook_verif)]
+        ::sighook_shim::hook::gen_flip(&self.generation as *const _ as usize);
 
         let mut iter = 0usize;
         while !seen_zero.iter().all(|s| *s) {
